@@ -6,7 +6,9 @@ import PsModel.Gen.C17Tables
 Mirrors the code as it is:
 * `GlobalContext.module_import(name, 0)` l.197–221 → `pysCandidates` / `pysLookup` (candidate files in the code's
   order: `apps/…` only for a context inside `apps/`, then `modules/<path>/__init__.py`, `modules/<path>.py`)
-* `module_import(name, level > 0)` without a parent package → `ImportError`
+* `module_import(name, level > 0)` → `relLookup`: no parent package → `ImportError`; the `/__init__` suffix of the
+  loader's `rel_import_path` is dropped; `level - 1` times `dirname` on the path and one component off the context
+  name, `ImportError` ("above parent package") as soon as the path has no `/` left or the name no `.`
 * `AstEval.ast_import` l.951–965 → `execImport` (pyscript lookup first; then the allow test on the WHOLE dotted
   name; then `sys.modules` / `importlib`; binding key = dotted name or `asname`; names are processed left to right,
   earlier bindings stay when a later name fails)
@@ -30,6 +32,7 @@ deriving DecidableEq, Repr
 structure Env where
   allowAll : Bool                         -- CONF_ALLOW_ALL_IMPORTS of the config entry
   relPath : Option String                 -- `global_ctx.rel_import_path` (`none` for a plain script file)
+  ctxName : String                        -- `global_ctx.name` (`apps.app1.sub`, `file.t`, …)
   files : List (String × ModInfo)         -- files below the pyscript folder that load as modules (path ↦ module)
   host : String → Option ModInfo          -- `sys.modules` / `importlib.import_module`; `none` = ModuleNotFoundError
 
@@ -38,6 +41,7 @@ inductive Err where
   | notFound        -- ModuleNotFoundError raised by importlib ("No module named …")
   | stubsAs         -- ModuleNotFoundError "… *as y* not supported for stubs"
   | relNoParent     -- ImportError "attempted relative import with no known parent package"
+  | relAbove        -- ImportError "attempted relative import above parent package"
   | relNotFound     -- ModuleNotFoundError "module 'x' not found" (from . import x)
   | attrMissing     -- AttributeError from `getattr(mod, name)`
 deriving DecidableEq, Repr
@@ -78,11 +82,49 @@ def firstFile (files : List (String × ModInfo)) : List String → Option ModInf
 /-- `await self.global_ctx.module_import(name, 0)` -/
 def pysLookup (env : Env) (name : String) : Option ModInfo := firstFile env.files (pysCandidates env.inApp name)
 
-/-- `module_import(name, 1)`: `none` = ImportError (no parent package), `some none` = no such file -/
-def relLookup (env : Env) (name : String) : Option (Option ModInfo) :=
+/-- `os.path.dirname` on a relative path: everything before the last `/` (empty when there is none) -/
+def dirnameL (l : List Char) : List Char :=
+  match l.reverse.dropWhile (fun c => c != '/') with
+  | [] => []
+  | _ :: r => r.reverse
+
+def dirname (p : String) : String := String.ofList (dirnameL p.toList)
+
+/-- `if path.endswith("/__init__"): path = os.path.dirname(path)` -/
+def stripInit (p : String) : String := if p.endsWith "/__init__" then dirname p else p
+
+/-- `ctx_name[0:ctx_name.rfind(".")]`; `none` when there is no dot -/
+def dropLastDot (s : String) : Option String :=
+  match s.toList.reverse.dropWhile (fun c => c != '.') with
+  | [] => none
+  | _ :: r => some (String.ofList r.reverse)
+
+/-- the `for _ in range(import_level - 1)` loop on (path, ctx_name); `none` = "above parent package" -/
+def relUp : Nat → String → String → Option (String × String)
+  | 0, path, ctx => some (path, ctx)
+  | k + 1, path, ctx =>
+    match dropLastDot ctx with
+    | none => none
+    | some ctx' => if (dirname path).contains '/' then relUp k (dirname path) ctx' else none
+
+inductive RelRes where
+  | noParent                  -- `rel_import_path is None`
+  | above                     -- climbed out of the package
+  | found (m : ModInfo)
+  | missing                   -- no such file: `module_import` returns `None`
+deriving DecidableEq, Repr
+
+/-- `module_import(name, level)` for `level ≥ 1` -/
+def relLookup (env : Env) (level : Nat) (name : String) : RelRes :=
   match env.relPath with
-  | none => none
-  | some rp => some (firstFile env.files [rp ++ "/" ++ modPath name ++ "/__init__.py", rp ++ "/" ++ modPath name ++ ".py"])
+  | none => .noParent
+  | some rp =>
+    match relUp (level - 1) (stripInit rp) env.ctxName with
+    | none => .above
+    | some (path, _) =>
+      match firstFile env.files [path ++ "/" ++ modPath name ++ "/__init__.py", path ++ "/" ++ modPath name ++ ".py"] with
+      | some m => .found m
+      | none => .missing
 
 /-- `imp.name not in ALLOWED_IMPORTS` – membership of the whole dotted name -/
 def allowListed (name : String) : Bool := Gen.ALLOWED_IMPORTS.contains name
@@ -133,38 +175,41 @@ def bindFrom (m : ModInfo) : List Alias → Bindings → Res
     else if m.attrs.contains a.name then bindFrom m rest (σ ++ [(a.key, .attr m.id a.name)])
     else { binds := σ, err := some .attrMissing }
 
-/-- `from . import a, b` without a module name: every name is a relative module import -/
-def execFromDot (env : Env) : List Alias → Bindings → Res
+/-- `from . import a, b` (`from .. import a`, …) without a module name: every name is a relative module import -/
+def execFromDot (env : Env) (level : Nat) : List Alias → Bindings → Res
   | [], σ => { binds := σ, err := none }
   | a :: rest, σ =>
-    match relLookup env a.name with
-    | none => { binds := σ, err := some .relNoParent }
-    | some (some m) => execFromDot env rest (σ ++ [(a.key, .mod m.id)])
-    | some none => { binds := σ, err := some .relNotFound }
+    match relLookup env level a.name with
+    | .noParent => { binds := σ, err := some .relNoParent }
+    | .above => { binds := σ, err := some .relAbove }
+    | .found m => execFromDot env level rest (σ ++ [(a.key, .mod m.id)])
+    | .missing => { binds := σ, err := some .relNotFound }
 
-/-- `ast_importfrom`; `relative` = the statement has leading dots (level 1) -/
-def execImportFrom (env : Env) (module : Option String) (relative : Bool) (names : List Alias) (σ : Bindings) : Res :=
+/-- how the module of a `from [.…]module import …` is found; `level` = number of leading dots (0 = absolute) -/
+def findFrom (env : Env) (mname : String) (level : Nat) : Except Err ModInfo :=
+  if level = 0 then resolve env mname
+  else match relLookup env level mname with
+    | .noParent => .error .relNoParent
+    | .above => .error .relAbove
+    | .found m => .ok m
+    | .missing => hostImport env mname     -- not found relatively: the bare name goes through the allow test
+
+/-- `ast_importfrom` -/
+def execImportFrom (env : Env) (module : Option String) (level : Nat) (names : List Alias) (σ : Bindings) : Res :=
   match module with
-  | none => execFromDot env names σ
+  | none => execFromDot env level names σ
   | some mname =>
     if isStubs mname then
       if names.any (fun a => a.asname.isSome) then { binds := σ, err := some .stubsAs }
       else { binds := σ, err := none }
     else
-      let found : Except Err ModInfo :=
-        if relative then
-          match relLookup env mname with
-          | none => .error .relNoParent
-          | some (some m) => .ok m
-          | some none => hostImport env mname     -- not found relatively: the bare name goes through the allow test
-        else resolve env mname
-      match found with
+      match findFrom env mname level with
       | .error e => { binds := σ, err := some e }
       | .ok m => bindFrom m names σ
 
 inductive Stmt where
   | imp (names : List Alias)
-  | impFrom (module : Option String) (relative : Bool) (names : List Alias)
+  | impFrom (module : Option String) (level : Nat) (names : List Alias)
 deriving Repr
 
 def execStmt (env : Env) (s : Stmt) (σ : Bindings) : Res :=
@@ -172,21 +217,33 @@ def execStmt (env : Env) (s : Stmt) (σ : Bindings) : Res :=
   | .imp names => execImport env names σ
   | .impFrom m l names => execImportFrom env m l names σ
 
-/-- a statement, possibly wrapped in `exec("…")` any number of times.  `ast_eval_exec_factory` builds a new `AstEval`
-over the SAME global context (hence the same pyscript modules, the same config entry) and, at module level, the same
-symbol table. -/
+/-- where a statement can stand without changing what it does -/
+inductive Where where
+  | func        -- body of a function that is called (the bound names are declared `global`)
+  | cls         -- class body (the bindings land in the class namespace)
+  | tryExcept   -- `try: … except ImportError as e:` (the error is caught afterwards; `Res.err` is what was raised)
+  | evalExec    -- `eval("exec('…')")`
+deriving DecidableEq, Repr
+
+/-- a statement, possibly wrapped in `exec("…")` any number of times, or standing in a function / class body /
+`try`.  `ast_eval_exec_factory` builds a new `AstEval` over the SAME global context (hence the same pyscript modules,
+the same config entry) and, at module level, the same symbol table; `ast_import`/`ast_importfrom` do not look at the
+enclosing construct at all. -/
 inductive Prog where
   | stmt (s : Stmt)
   | exec (p : Prog)
+  | within (w : Where) (p : Prog)
 deriving Repr
 
 def run (env : Env) : Prog → Bindings → Res
   | .stmt s, σ => execStmt env s σ
   | .exec p, σ => run env p σ
+  | .within _ p, σ => run env p σ
 
 def Prog.inner : Prog → Stmt
   | .stmt s => s
   | .exec p => p.inner
+  | .within _ p => p.inner
 
 /-! ## plain-name lookup (`ast_name`, Load context, no dots) -/
 
